@@ -360,6 +360,10 @@ def make_tree(i, examples, clean, r, twopass=()):
         else:
             text = r.choice(examples)
         files.append((os.path.join(folder, name), text))
+    # the same bytes under names that are formatted differently (__init__.py keeps its imports), before and after one another in the sorted order
+    twin = r.choice(["import os\nimport sys\n\n\ndef f():\n    return 1\n", "from os import sep\n\n\nVALUE = 1\n", "import json\n\n\nclass K:\n    pass\n"])
+    for folder in ("twins", "twins/inner"):
+        files += [(f"{folder}/__init__.py", twin), (f"{folder}/mtwin.py", twin), (f"{folder}/A_before_init.py", twin)]
     files.append(("clients/client_a.py", "from pkg.m1 import foo, Bar\nimport other\nprint(foo, Bar.method, other.m2.value, other.helper())\n"))
     files.append(("clients/client_b.py", "import pkg\nx = pkg.sub.thing.attr\nprint(x.someAttr, fooBar)\n"))
     files.append(("notes.txt", "not python\n"))
